@@ -205,6 +205,21 @@ pub fn run_case(case: &Value, out: &mut Out) {
                     _ => Ok(Ok(())),
                 };
             }
+            // "fresh": the same call is put to a reader opened for this call alone; the two answers are compared
+            // as recorded values (history independence of files whose tables the specification does not interpret)
+            if case["fresh"].as_bool().unwrap_or(false) {
+                let op = c["op"].as_str().unwrap_or("");
+                if let Ok(mut fr) = open_reader_total(&bytes, init.as_deref(), total, None, seg_pos) {
+                    let (a, b) = match op {
+                        "read" => (read_event(&mut reader, t, k), read_event(&mut fr, t, k)),
+                        "offset" => (offset_event(&mut reader, t, k), offset_event(&mut fr, t, k)),
+                        _ => (count_event(&mut reader, t), count_event(&mut fr, t)),
+                    };
+                    out.ev(json!({"e":"same","what":"a call answers differently on a reader with a history than on a fresh reader",
+                        "same": a == b, "detail": [op, t, k, a["res"], b["res"]]}));
+                }
+                continue;
+            }
             match c["op"].as_str().unwrap_or("") {
                 "read" => out.ev(read_event(&mut reader, t, k)),
                 "offset" => out.ev(offset_event(&mut reader, t, k)),
